@@ -110,6 +110,8 @@ var c02 = newChk("C02", "roundtrip",
 			dec, _ = dhcpv6.FromBytes(append([]byte{}, enc...))
 		}
 		// (d) a decoded message whose domain names are edited in place (letter case only) encodes the edited names
+		nameEdit = int(obs.Hash64(enc) % 2) // letter case only, or one separator only
+		defer func() { nameEdit = 0 }()
 		if n := flipNames(dec); n > 0 {
 			enc3 := dec.ToBytes()
 			t3, v3 := refv6.DecodeMsg(enc3, cov.skip, nil)
@@ -207,7 +209,7 @@ func flipNames(d dhcpv6.DHCPv6) int {
 	n := 0
 	eachLabels(d, func(l *rfc1035label.Labels) {
 		for i, s := range l.Labels {
-			if f := flipCase(s); f != s {
+			if f := editName(s); f != s {
 				l.Labels[i] = f
 				n++
 			}
@@ -292,7 +294,7 @@ func flipTreeNames(m *refv6.Msg) {
 	opts = func(o []refv6.Opt) {
 		for i := range o {
 			for k, s := range o[i].Names {
-				o[i].Names[k] = flipCase(s)
+				o[i].Names[k] = editName(s)
 			}
 			if len(o[i].Names) > 0 && len(o[i].B) > 0 {
 				o[i].B[len(o[i].B)-1] = reflabel.Encode(o[i].Names) // the wire form of the edited names
